@@ -289,9 +289,12 @@ def r_arity(ctx, model):
 
 
 def r_gamma_store(ctx, model):
-    px = Reuse(ctx, lambda lab: "Gamma" in lab or "average_over_modes" in lab)
+    px = Reuse(ctx, lambda lab: "Gamma" in lab or "average_over_modes" in lab or "cell by cell" in lab)
     C01.r_average(px, model)
-    px.done("C01.r_average")
+    # ... and they carry no weight in any contribution, whatever code reduces over the modes (= R01.13: the cells (q = 0, m < 3), whose
+    # Bose factors are 0/0, must be absent from the folded zero-point and thermal sums)
+    C01.r_cells(px, model)
+    px.done("C01.r_average / C01.r_cells")
 
 
 def x1_hooks(f, dom):
@@ -552,7 +555,7 @@ RULES = [
     ("R12.4", "thermal parts and the adiabatic gap are zeroed on T = 0 rows (= R01.9, R02.3)", r_masks),
     ("R12.5", "every schema-valid interpolator name is dispatched (= R11.5)", r_dispatch),
     ("R12.6", "unpack arity of qha's fit at every call site", r_arity),
-    ("R12.7", "Gamma acoustic entries (0/0 in every Bose factor) are overwritten on a copy before the reduction (= R01.7)", r_gamma_store),
+    ("R12.7", "Gamma acoustic entries (0/0 in every Bose factor) are overwritten on a copy before the reduction (= R01.7) and carry no weight in the cell-by-cell fold (= R01.13)", r_gamma_store),
     ("R12.10", "no factorisation that exists only for positive-definite matrices (Cholesky) in the live core modules", r_pd_only),
     ("R12.9", "node selection of the interpolators raises nothing and yields distinct nodes for every volume count 2..16 and order 1..12 (= R11.9)", r_nodes),
     ("R12.8", "main-path well-formedness: definite assignment (X1) and defined names (X4) in every function", r_wellformed),
